@@ -110,13 +110,23 @@ IdleTick(s) ==
   /\ cons' = cons /\ hls' = hls
   /\ Rec("idle", s, hls[s], hls[s] # "no")
 
+(* server shutdown: every stream ends, the retired ones included (C03 names shutdown among the reasons a stream ends) *)
+Shutdown ==
+  /\ \E s \in Streams : status[s] = "ok"
+  /\ reg' = [p \in Paths |-> None]
+  /\ status' = [s \in Streams |-> IF status[s] = "ok" THEN "closed" ELSE status[s]]
+  /\ cons' = [s \in Streams |-> {}]
+  /\ retiring' = [s \in Streams |-> FALSE] /\ hls' = hls
+  /\ Rec("shutdown", "s1", "", FALSE)
+
 Init == /\ reg = [p \in Paths |-> None] /\ status = [s \in Streams |-> "new"]
         /\ cons = [s \in Streams |-> {}] /\ retiring = [s \in Streams |-> FALSE] /\ hls = [s \in Streams |-> "no"] /\ hist = <<>>
 Next == /\ Len(hist) < MaxHist
-        /\ \E s \in Streams : \/ Regist(s) \/ Unregist(s) \/ Close(s)
-                              \/ \E k \in Kinds : Attach(s, k) \/ Detach(s, k) \/ AttachDead(s, k)
-                              \/ IdleTick(s)
-                              \/ \E how \in {"m3u8", "segment"} : HlsAccess(s, how)
+        /\ \/ Shutdown
+           \/ \E s \in Streams : \/ Regist(s) \/ Unregist(s) \/ Close(s)
+                                 \/ \E k \in Kinds : Attach(s, k) \/ Detach(s, k) \/ AttachDead(s, k)
+                                 \/ IdleTick(s)
+                                 \/ \E how \in {"m3u8", "segment"} : HlsAccess(s, how)
 
 Emit == (Len(hist) >= EmitAt) => PrintT(<<"@H", ToJson([hist |-> hist])>>)
 
